@@ -918,6 +918,21 @@ async fn err_case(fx: &Fixture, row: ErrRow, code: u64) -> Result<Result<(), Str
                             Ok(()) => tokio::time::sleep(Duration::from_millis(2)).await,
                             Err(StreamErrorIncoming::StreamTerminated { error_code }) if error_code == code => {
                                 out = Ok(());
+                                // the application may try again (trailers, finish, a retry): the stop is a property of that
+                                // stream and keeps surfacing as such - not as an error of the whole connection
+                                for k in 0..3 {
+                                    let r = match bi.send_data(WriteBuf::from(Frame::Data(Bytes::from(vec![1u8; 10])))) {
+                                        Err(e) => Err(e),
+                                        Ok(()) => std::future::poll_fn(|cx| bi.poll_ready(cx)).await,
+                                    };
+                                    match r {
+                                        Err(StreamErrorIncoming::StreamTerminated { error_code }) if error_code == code => {}
+                                        other => {
+                                            out = Err(format!("peer sent STOP_SENDING({code:#x}) and the first write reported it; write attempt #{} after that gave {other:?}", k + 2));
+                                            break;
+                                        }
+                                    }
+                                }
                                 break;
                             }
                             Err(other) => {
